@@ -3,7 +3,7 @@
 # Confirms a sub-agent's seeded change in its scratch worktree (suite passes with it, demo fails
 # with it and passes without it), stores it under /verif/seeded/<id>/, then runs the quick check
 # of the property against it (applied to /repo and reverted straight afterwards).
-ID=$1; CHK=${2:-$1}; WT=/tmp/seed/$ID
+ID=$1; CHK=${2:-$1}; ROUND=${ROUND:-1}; if [ "$ROUND" = 1 ]; then WT=/tmp/seed/$ID; OUT=$ID; else WT=/tmp/seed$ROUND/$ID; OUT=$ID-$ROUND; fi; mkdir -p /tmp/seed
 export GOFLAGS=-mod=mod GOPROXY=off GOSUMDB=off GOTOOLCHAIN=local
 [ -f $WT/SEED/patch.diff ] || { echo "no patch for $ID"; exit 1; }
 cd $WT
@@ -26,15 +26,15 @@ git checkout -q go.mod go.sum 2>/dev/null
 FAILS=$(grep -c "^FAIL\|^--- FAIL" /tmp/seed/$ID.suite.log)
 echo "demo with change exit=$W (want !=0), without exit=$WO (want 0), suite exit=$S failing lines=$FAILS"
 grep "^--- FAIL\|^FAIL" /tmp/seed/$ID.suite.log | head -5
-mkdir -p /verif/seeded/$ID && cp -r $WT/SEED/* /verif/seeded/$ID/
+mkdir -p /verif/seeded/$OUT && cp -r $WT/SEED/* /verif/seeded/$OUT/
 # 4. my check against it
 cd /verif && git -C /repo apply $WT/SEED/patch.diff && VERIF_NO_EVIDENCE=1 ./vf check $CHK quick > /tmp/seed/$ID.check.log 2>&1; C=$?
 git -C /repo checkout -- . ; git -C /repo status --short | head -3
 echo "check $CHK exit=$C"; grep -v "^KNOWN" /tmp/seed/$ID.check.log | grep "VIOLATION\|key=\|^C[0-9]\|BROKEN" | head -8
-python3 - "$ID" "$CHK" "$W" "$WO" "$S" "$C" <<'PY'
+python3 - "$ID" "$CHK" "$W" "$WO" "$S" "$C" "$OUT" <<'PY'
 import json,sys
-i,chk,w,wo,s,c=sys.argv[1:]
-p='/verif/seeded/%s/meta.json'%i
+i,chk,w,wo,s,c,out=sys.argv[1:]
+p='/verif/seeded/%s/meta.json'%out
 m=json.load(open(p))
 keys=[l.strip()[4:] for l in open('/tmp/seed/%s.check.log'%i) if l.strip().startswith('key=')]
 m['confirmed_by_harness_author']={'demo_exit_with_change':int(w),'demo_exit_without_change':int(wo),'suite_exit_with_change':int(s),
